@@ -352,8 +352,8 @@ _PRESERVING = ("expect", "unwrap", "unwrap_or", "unwrap_or_else", "unwrap_or_def
 
 
 def _value_preserving(tr, c):
-    if c.name in _PRESERVING:
-        return True
+    if c.name in _PRESERVING or c.name.startswith(("from_", "as_", "to_", "into_", "with_capacity")):
+        return True          # wrapping, defaulting and unit conversions keep the configured value
     if c.name in ("min", "max", "clamp"):
         # a sanitising clamp by constants
         others = [peel(tr.expand(tr.operand(c.g.b, a, c.loc))) for a in c.args[1:]]
